@@ -47,7 +47,15 @@ func (t *Timer) Set(dur time.Duration, cb func()) error {
 	if err == nil {
 		// TODO error checking here
 		t.slot.Set(ReadEvent, func(error) {
-			_, _ = syscall.Read(t.fd, t.b[:])
+			// The expiration count tells whether the timer really expired. The
+			// event may be stale: the timer can have been cancelled and set again
+			// by a handler that ran earlier in the same poll cycle. In that case
+			// the read does not succeed; wait for the real expiration.
+			n, err := syscall.Read(t.fd, t.b[:])
+			if err != nil || n != len(t.b) {
+				_ = t.poller.SetRead(&t.slot)
+				return
+			}
 			cb()
 		})
 		err = t.poller.SetRead(&t.slot)
